@@ -13,7 +13,7 @@ def main():
     verbose = "-v" in sys.argv
     only = None
     if "-k" in sys.argv:
-        only = sys.argv[sys.argv.index("-k") + 1]
+        only = [sys.argv[i + 1] for i, a in enumerate(sys.argv) if a == "-k"]
     reg = Registry().load_package("contracts")
     repo = Repo()
     bad = 0
@@ -35,7 +35,7 @@ def main():
             continue
         print("   symbolic execution: %.1fs, %d paths, %d obligations" % (time.time() - t0, res["paths"], len(obls)))
         if only is not None:
-            obls = [o for o in obls if only in o.name]
+            obls = [o for o in obls if any(x in o.name for x in only)]
             res["probes"] = []
         rs, texts = solve.discharge(obls, timeout_s=10)
         vac = solve.probe(res["probes"]) if all(r["status"] == "unsat" for r in rs) else []
